@@ -13,7 +13,7 @@ from mc.result import Result
 PROPERTY = 'C04'
 LEVEL = 'model_checking'
 CHUNK = 80
-RULE = ('as an unprivileged user (forked child, uid 65534): 5 ways a case removes permissions from parts of its sandbox x {pass, fail}; ' +
+RULE = ('as an unprivileged user (forked child, uid 65534): 8 ways a case removes permissions from parts of its sandbox x {pass, fail}; ' +
         'cases = ending (pass, failing assertion, and every single fault (step x kind) of a stub instruction in each phase, incl. '
         'validation faults before the sandbox exists) x mode (normal, --keep, --act) x behaviour of the case (plain, cd to tmp / new dir / nested dir that is '
         'later deleted, env set+unset in both sets, files made read-only, children writing to tmp/, instructions that need internal temp '
@@ -62,7 +62,7 @@ def prepare(tier):
     procseam.install()
 
 
-UNPRIV = ('ro-file', 'ro-dir-with-file', 'ro-nested', 'no-perm-dir', 'ro-dir-in-tmp')
+UNPRIV = ('ro-file', 'ro-dir-with-file', 'ro-nested', 'no-perm-dir', 'ro-dir-in-tmp', 'no-perm-dir-holding-ro-dir', 'sandbox-root-no-perm', 'sandbox-root-no-perm-own-tmpdir')
 
 
 def cases(tier):
@@ -186,6 +186,9 @@ def _unpriv(case) -> Result:
     where = '-rel-tmp ' if variant == 'ro-dir-in-tmp' else ''
     lines = ['[setup]', 'dir %sd/e' % where, "file %sd/f.txt = 'x'" % where, "file %sd/e/g.txt = 'x'" % where, 'run % mkro', '[act]', '% atc', '[assert]',
              'exit-code == %d' % (0 if ending == 'pass' else 1)]
+    if variant.startswith('sandbox-root-no-perm'):
+        # the whole sandbox is made inaccessible by the last instruction of [cleanup] (anything earlier could not finish its own bookkeeping)
+        lines = ['[setup]', 'dir d/e', "file d/f.txt = 'x'", '[act]', '% atc', '[assert]', 'exit-code == %d' % (0 if ending == 'pass' else 1), '[cleanup]', 'run % mkro']
     text = '\n'.join(lines) + '\n'
 
     def hook(rec):
@@ -200,10 +203,20 @@ def _unpriv(case) -> Result:
         elif variant == 'ro-nested':
             os.chmod(os.path.join(d, 'e'), 0o555)
             os.chmod(d, 0o555)
+        elif variant == 'no-perm-dir-holding-ro-dir':
+            os.chmod(os.path.join(d, 'e'), 0o555)
+            os.chmod(d, 0o000)
+        elif variant.startswith('sandbox-root-no-perm'):
+            os.chmod(os.path.dirname(rec['cwd']), 0o000)
         else:
             os.chmod(d, 0o000)
 
     seam.on_call = hook
+    if variant == 'sandbox-root-no-perm-own-tmpdir':
+        # the directory that holds the sandboxes belongs to the user: its own mode must not change
+        os.chown(str(w.sb), 65534, 65534)
+        os.chmod(str(w.sb), 0o755)
+    sb_mode_before = stat.S_IMODE(os.stat(str(w.sb)).st_mode)
     rfd, wfd = os.pipe()
     pid = os.fork()
     if pid == 0:
@@ -245,8 +258,10 @@ def _unpriv(case) -> Result:
     elif got.get('uid') == 0:
         errs.append('harness: the child still runs as root')
     else:
-        if got['ident'] != want:
+        if got['ident'] != want and not (variant.startswith('sandbox-root-no-perm') and got['ident'] in ('HARD_ERROR', 'INTERNAL_ERROR')):
             errs.append('outcome %s, expected %s / %s' % (got['ident'], want, ' / '.join(cli.stderr_lines(got['err'])[-3:])[:300]))
+        if stat.S_IMODE(os.stat(str(w.sb)).st_mode) != sb_mode_before:
+            errs.append('the mode of the directory that HOLDS the sandboxes changed: %o -> %o' % (sb_mode_before, stat.S_IMODE(os.stat(str(w.sb)).st_mode)))
         if got['sandboxes']:
             errs.append('run by an unprivileged user, the case made part of its sandbox read-only (%s): the sandbox was NOT removed when execution ended' % variant)
     # the parent (root) can always clean up
